@@ -70,8 +70,10 @@ C_SendRace(e) == e.op = "SendRace" =>
    /\ Len(e.rest) = e.fill + Cardinality(TrueIdx(e))
    /\ SubSeq(e.rest, 1, e.fill) = Vals(1, e.fill)
    /\ {e.rest[i] : i \in (e.fill + 1)..Len(e.rest)} = {e.vs[i] : i \in TrueIdx(e)}
+\* the channel is closed right around the caller's deadline: "(a closed channel counts as false)" whichever comes first
+C_CloseRace(e) == e.op = "RecvCloseRace" => ~e.blocked /\ ~e.ok /\ e.v = 0
 C_NoPanic(e) == e.panic = ""
-All(e) == C_RecvRace(e) /\ C_SendRace(e) /\ C_NoPanic(e) /\ C_NeverBlocks(e) /\ C_Queued(e) /\ C_QueuedPending(e) /\ C_Outcome(e) /\ C_SendConserve(e) /\ C_RecvConserve(e) /\ C_Unlimited(e)
+All(e) == C_CloseRace(e) /\ C_RecvRace(e) /\ C_SendRace(e) /\ C_NoPanic(e) /\ C_NeverBlocks(e) /\ C_Queued(e) /\ C_QueuedPending(e) /\ C_Outcome(e) /\ C_SendConserve(e) /\ C_RecvConserve(e) /\ C_Unlimited(e)
 TInit == l = 1
 Step == l <= Len(Trace) /\ l' = l + 1 /\ (Gate => All(Ev))
 TSpec == TInit /\ [][Step]_vars
@@ -86,6 +88,7 @@ I_SendConserve == Chk => C_SendConserve(Obs)
 I_RecvConserve == Chk => C_RecvConserve(Obs)
 I_Unlimited == Chk => C_Unlimited(Obs)
 I_RecvRace == Chk => C_RecvRace(Obs)
+I_CloseRace == Chk => C_CloseRace(Obs)
 I_SendRace == Chk => C_SendRace(Obs)
 Track == TrackL(l)
 Accepted == AcceptedP
